@@ -1,6 +1,6 @@
 """C03 — time-window reads return exactly the intersecting events, newest first, limited."""
 from ..backends import BACKENDS, Store
-from ..gen import DAY_US, MAX_US, bucket_ids, canon, dt_us, floor_ms, mk_dt, mk_event, rand_instant, rand_offset, td_us
+from ..gen import DAY_US, MAX_US, ZONE_NAMES, ZONE_TRANSITIONS, zones_available, bucket_ids, canon, dt_us, floor_ms, mk_dt, mk_event, rand_instant, rand_offset, td_us
 from ..model import allen
 
 ID = "C03"
@@ -12,7 +12,7 @@ TAU = 2000  # µs: "only events within about 2 ms of an edge may go either way"
 RULE = ("per case one store and one bucket (3 % of the cases around the Unix epoch, events and windows before it included; in 60 % of the cases next to a second bucket with a look-alike id that holds events at the very same instants) holding 1-12 events (overlapping, nested, adjacent, identical, zero-length, "
         "up to exactly 24 h long, events reaching a window from ~24 h before it) and ~25 windows (open on either "
         "side, zero-width, sub-millisecond, edges exactly on / 1 µs / 1 ms / 3 ms around event starts and ends, "
-        "independent UTC offsets on both edges) × limits {-1, 0, 1, 2, n, n+1}; each window is read and counted; up to three "
+        "independent UTC offsets on both edges; in 6 % of the cases the days around a daylight-saving switch of a real zone, edges handed over as datetimes of that zone, half of the events a day long or nearly) × limits {-1, 0, 1, 2, n, n+1}; each window is read and counted; up to three "
         "writes (insert / delete / replace / replace_last) are interleaved, each followed by a verbatim repetition of an "
         "earlier window; "
         "evaluations = windows read; non-trivial = some event lies partly inside the window, or the limit truncates; "
@@ -35,11 +35,20 @@ def gen_case(rng, ctx):
         unit = rng.choice([1000, 10**6, 60 * 10**6, 3600 * 10**6])
         # half of them on a grid that contains the epoch itself (an instant whose number is 0)
         base = -rng.randrange(0, 25) * unit if rng.random() < 0.5 else floor_ms(-rng.randrange(0, 14 * 3600 * 10**6))
+    zone = None
+    if rng.random() < 0.06 and zones_available():
+        # the days around a daylight-saving switch of a real zone: window edges are handed over as datetimes of that zone
+        # (a day there is 23 or 25 hours long), next to events of up to exactly 24 h
+        zone = rng.choice(ZONE_NAMES)
+        unit = 3600 * 10**6
+        base = rng.choice(ZONE_TRANSITIONS[zone]) * 10**6 - rng.randrange(18, 30) * unit
     n = rng.randrange(1, 13)
     evs = []
     for i in range(n):
         s = base + rng.randrange(0, 30) * unit
         r = rng.random()
+        if zone and r >= 0.5:
+            r = 0.2 + 0.1 * rng.random()         # half of the events there are a day long, or nearly
         if r < 0.2:
             d = 0
         elif r < 0.3:
@@ -79,6 +88,11 @@ def gen_case(rng, ctx):
                 we = ws + rng.choice([0, 1000, 10**6, DAY_US])
         q = dict(ws=ws, wo=rand_offset(rng), we=we, eo=rand_offset(rng),
                  limit=rng.choice([-1, -1, -1, -5, 0, 1, 1, 2, len(evs), len(evs) + 1, 3]))
+        if zone:
+            if rng.random() < 0.8:
+                q["wz"] = zone
+            if rng.random() < 0.6:
+                q["ez"] = zone
         qs.append(q)
     # writes between the reads (anything remembered from an earlier read must not survive them); each is followed by a
     # verbatim repetition of an earlier window
@@ -218,9 +232,9 @@ def run_case(case, ctx):
             q = queries[qi]
             kw = {}
             if q["ws"] is not None:
-                kw["starttime"] = mk_dt(q["ws"], q["wo"])
+                kw["starttime"] = mk_dt(q["ws"], q["wo"], q.get("wz"))
             if q["we"] is not None:
-                kw["endtime"] = mk_dt(q["we"], q["eo"])
+                kw["endtime"] = mk_dt(q["we"], q["eo"], q.get("ez"))
             got = [(e.id, dt_us(e.timestamp), td_us(e.duration), canon(e.data)) for e in b.get(q["limit"], **kw)]
             count = b.get_eventcount(**kw)
             before = len(viols)
